@@ -295,6 +295,26 @@ def check(case, stats=None):
                 want = [sum(dense[n][s + j] for n, s in wins) / len(wins) for j in range(w)]
                 if not close(got, want):
                     return [Failure("C11:window-mean", {"streamed": np.asarray(got).tolist(), "expected": want, "windows": wins})]
+                if case.get("ragged_windows") and len(names) >= 2:
+                    # windows whose length differs from chromosome to chromosome (w on the first, w+1 on the second, ...): the column mean through the
+                    # streamed pipeline is the in-memory one, or the streamed evaluation refuses (it does, today, when the longest lengths differ)
+                    rw = [(n, s, min(sizes[n], s + w + names.index(n))) for n in names for s in range(0, max(1, sizes[n] - w), max(1, w))][:12]
+                    rw = [x for x in rw if x[2] > x[1]]
+                    if rw:
+                        rwt = Interval([x[0] for x in rw], np.array([x[1] for x in rw], dtype=int), np.array([x[2] for x in rw], dtype=int))
+                        try:
+                            mem = np.asarray(genome.get_intervals(table).get_pileup()[genome.get_intervals(rwt)].mean(axis=0), dtype=float)
+                        except Exception:
+                            mem = None
+                        if mem is not None:
+                            try:
+                                got_r = np.asarray(bnp.compute(genome.get_intervals(stream()).get_pileup()[genome.get_intervals(NpDataclassStream(iter([rwt]), dataclass=Interval))].mean(axis=0)), dtype=float)
+                            except Exception as e_:
+                                got_r = None
+                                if stats is not None:
+                                    stats.tolerant["streamed-mean-under-unequal-windows-refused:" + type(e_).__name__] += 1
+                            if got_r is not None and (got_r.shape != mem.shape or not np.allclose(got_r, mem, rtol=1e-9, atol=1e-12)):
+                                return [Failure("C11:window-mean:unequal-windows", {"streamed": got_r.tolist(), "in_memory": mem.tolist(), "windows": rw})]
                 if case.get("wstrands"):
                     # the values under stranded windows (strands '+', '-' and the undetermined '.'): streamed rows == in-memory rows, and for
                     # '+' / '-' rows also the dense values (reversed on '-')
@@ -367,6 +387,8 @@ def make_case(genome, ents, cuts, comp, salt):
         case["m"] = 1 + salt % 4
     if comp == "window-mean":
         case["w"] = 1 + salt % 3
+        if salt % 3 == 0:
+            case["ragged_windows"] = True
         if salt % 2:
             case["wstrands"] = ["+-", "+-.", ".", "-.", "+", ".+"][(salt // 2) % 6]
     if comp == "streamable-map":
